@@ -15,6 +15,8 @@ fn main() {
     let code = match argv[1].as_str() {
         "smoke" => drivers::smoke::run(&args),
         "server" => drivers::server::run(&args),
+        "idmath" => drivers::idmath::run(&args),
+        "idmath-one" => drivers::idmath::run_one(&args),
         other => {
             eprintln!("unknown driver {other}");
             2
